@@ -13,11 +13,12 @@ EXTENDS Integers, Sequences, SequencesExt, FiniteSets, TLC, Json
 
 CONSTANTS MaxN, Reps, OutFile, MaxUs, MaxSFs, Variants
 
-Cats == <<"none", "upAvail", "upUnavail", "oldAvail", "oldUnavail", "oldTerm", "stuck">>
+\* ("upUnknown": the pod's Ready condition is Unknown - its node stopped reporting -, which is not Ready)
+Cats == <<"none", "upAvail", "upUnavail", "oldAvail", "oldUnavail", "oldTerm", "stuck", "upUnknown">>
 
 \* multisets of size n over the 7 categories = non-decreasing sequences of category indices
 RECURSIVE NonDec(_, _)
-NonDec(n, lo) == IF n = 0 THEN {<<>>} ELSE UNION { { <<c>> \o q : q \in NonDec(n - 1, c) } : c \in lo..7 }
+NonDec(n, lo) == IF n = 0 THEN {<<>>} ELSE UNION { { <<c>> \o q : q \in NonDec(n - 1, c) } : c \in lo..Len(Cats) }
 
 Layouts == UNION { NonDec(n, 1) : n \in 1..MaxN }
 
@@ -25,13 +26,14 @@ NodeName(i) == "n" \o ToString(i)
 
 PodFor(cat, i) ==
     LET base == [node |-> NodeName(i), tmpl |-> "A", rs |-> "A", phase |-> "Running", ready |-> TRUE, term |-> FALSE, stuck |-> FALSE,
-                 unsched |-> FALSE, restarts |-> 0, restartAge |-> -1, waiting |-> "", startAge |-> 3, clabel |-> FALSE, age |-> 3, res |-> ""]
+                 unsched |-> FALSE, readyUnknown |-> FALSE, restarts |-> 0, restartAge |-> -1, waiting |-> "", startAge |-> 3, clabel |-> FALSE, age |-> 3, res |-> ""]
     IN CASE cat = "upAvail"    -> <<[base EXCEPT !.tmpl = "B", !.rs = "B"]>>
          [] cat = "upUnavail"  -> <<[base EXCEPT !.tmpl = "B", !.rs = "B", !.ready = FALSE]>>
          [] cat = "oldAvail"   -> <<base>>
          [] cat = "oldUnavail" -> <<[base EXCEPT !.ready = FALSE]>>
          [] cat = "oldTerm"    -> <<[base EXCEPT !.term = TRUE]>>
          [] cat = "stuck"      -> <<[base EXCEPT !.term = TRUE, !.stuck = TRUE, !.ready = FALSE]>>
+         [] cat = "upUnknown"  -> <<[base EXCEPT !.tmpl = "B", !.rs = "B", !.ready = FALSE, !.readyUnknown = TRUE]>>
          [] OTHER              -> <<>>
 
 RECURSIVE Concat(_)
